@@ -228,23 +228,30 @@ Proof.
   eassert (R1 : NestedModel.reachable 1 2 _).
   { eapply NestedModel.reach_step; [exact R0|].
     eapply (NestedModel.NOpen 1 _ 1 []); [simpl; auto|reflexivity|reflexivity]. }
+  cbv in R1.
   eassert (R2 : NestedModel.reachable 1 2 _).
   { eapply NestedModel.reach_step; [exact R1|].
     eapply (NestedModel.NSpawn 1 _ 1 (NestedModel.FRoot 0) [] 0); reflexivity. }
+  cbv in R2.
   eassert (R3 : NestedModel.reachable 1 2 _).
   { eapply NestedModel.reach_step; [exact R2|].
     eapply (NestedModel.NStart 1 _ 0 0 [] []); [auto|simpl; auto|reflexivity|reflexivity]. }
+  cbv in R3.
   eassert (R4 : NestedModel.reachable 1 2 _).
   { eapply NestedModel.reach_step; [exact R3|].
     eapply (NestedModel.NOpen 1 _ 0 [NestedModel.FTask 0]); [simpl; auto|reflexivity|reflexivity]. }
+  cbv in R4.
   eassert (R5 : NestedModel.reachable 1 2 _).
   { eapply NestedModel.reach_step; [exact R4|].
     eapply (NestedModel.NSpawn 1 _ 0 (NestedModel.FRoot 1) [NestedModel.FTask 0] 1); reflexivity. }
+  cbv in R5.
   eassert (R6 : NestedModel.reachable 1 2 _).
   { eapply NestedModel.reach_step; [exact R5|].
     eapply (NestedModel.NFinishRoot 1 _ 0 1 [NestedModel.FTask 0]); reflexivity. }
+  cbv in R6.
   eassert (R7 : NestedModel.reachable 1 2 _).
   { eapply NestedModel.reach_step; [exact R6|].
     eapply (NestedModel.NHelp 1 _ 0 1 [NestedModel.FTask 0] 1 [] []); [auto|reflexivity|reflexivity]. }
-  eexists. split; [exact R7|]. repeat split.
+  cbv in R7.
+  eexists. split; [exact R7|]. cbv. repeat split.
 Qed.
